@@ -2,7 +2,7 @@
 From Coq Require Import List Arith NArith Bool Lia.
 From Coq.Strings Require Import Byte.
 From EV Require Import Base.Bytes Base.Codec Model.Tx Model.SighashSpec Model.SighashCommit
-  Proofs.Sighash Proofs.SighashCommit Proofs.SighashCommitTap Proofs.SighashCommitSeg Proofs.SighashCommitLeg.
+  Proofs.Sighash Proofs.SighashCommit Proofs.SighashCommitTap Proofs.SighashCommitSeg Proofs.SighashCommitLeg Proofs.SighashCommitConv.
 Import ListNotations.
 Open Scope N_scope.
 Set Default Timeout 120.
@@ -47,4 +47,24 @@ Proof. unfold spec_taproot_digest. intros D D' C C' CS CS' Q Q'.
   apply option_map_some in D as (m & S & E). apply option_map_some in D' as (m' & S' & E'). rewrite E' in E.
   destruct (hash_eq Htag _ _ E) as [Em|K]; [|right; right; exact K]. subst m'.
   destruct (taproot_msg_sensitive pt_ok H Hlen _ _ _ _ _ _ _ _ _ _ _ _ _ _ _ S' S C' C CS' CS Q' Q) as [X|K]; [left; now symmetry|right; left; exact K]. Qed.
+
+(* ---- the exact characterisation: digests agree iff the committed views agree (up to collisions) ---- *)
+Theorem legacy_digest_complete t t' idx idx' sc sc' ht ht' d d' :
+  spec_legacy_digest pt_ok H true t idx sc ht = Some d -> spec_legacy_digest pt_ok H true t' idx' sc' ht' = Some d' ->
+  legacy_committed t idx sc ht = legacy_committed t' idx' sc' ht' -> d = d'.
+Proof. unfold spec_legacy_digest. intros D D' E. pose proof E as E0. unfold legacy_committed in E.
+  destruct (nth_error (tx_in t) idx) as [me|] eqn:N; [|discriminate]. destruct (nth_error (tx_in t') idx') as [me'|] eqn:N'; [|discriminate].
+  destruct (legacy_single_bug t idx ht) eqn:B, (legacy_single_bug t' idx' ht') eqn:B'; try discriminate E.
+  - congruence.
+  - apply option_map_some in D as (m & S & ->). apply option_map_some in D' as (m' & S' & ->). f_equal. eapply legacy_committed_complete; eauto. Qed.
+Theorem segwit_digest_complete t t' idx idx' sc sc' v v' ht ht' d d' :
+  spec_segwit_digest pt_ok H t idx sc v ht = Some d -> spec_segwit_digest pt_ok H t' idx' sc' v' ht' = Some d' ->
+  segwit_committed pt_ok t idx sc v ht = segwit_committed pt_ok t' idx' sc' v' ht' -> d = d'.
+Proof. unfold spec_segwit_digest. intros D D' E. apply option_map_some in D as (m & S & ->). apply option_map_some in D' as (m' & S' & ->).
+  f_equal. eapply segwit_committed_complete; eauto. Qed.
+Theorem taproot_digest_complete t t' spent spent' idx idx' annex annex' leaf leaf' ht ht' g g' d d' :
+  spec_taproot_digest pt_ok H Htag t spent idx annex leaf ht g = Some d -> spec_taproot_digest pt_ok H Htag t' spent' idx' annex' leaf' ht' g' = Some d' ->
+  taproot_committed t spent idx annex leaf ht g = taproot_committed t' spent' idx' annex' leaf' ht' g' -> d = d'.
+Proof. unfold spec_taproot_digest. intros D D' E. apply option_map_some in D as (m & S & ->). apply option_map_some in D' as (m' & S' & ->).
+  f_equal. eapply taproot_committed_complete; eauto. Qed.
 End DIGESTS.
